@@ -28,14 +28,15 @@ type Source struct {
 
 // Scenario is the replayable description of one run of the command.
 type Scenario struct {
-	Flags     []string       `json:"flags"`     // output/input mode flags
-	Indent    int            `json:"indent"`    // with --indent
-	PreArgs   []string       `json:"pre_args"`  // --arg etc. before the query
-	Query     string         `json:"query"`     // query text
-	FromFile  bool           `json:"from_file"` // pass the query with -f
-	Sources   []Source       `json:"sources"`   // files and "-" in command-line order (empty: implicit stdin)
-	Stdin     string         `json:"stdin"`     // the bytes of standard input
-	Plan      simio.ReadPlan `json:"plan"`      // delivery schedule and read fault of stdin
+	Flags     []string       `json:"flags"`              // output/input mode flags
+	Indent    int            `json:"indent"`             // with --indent
+	PreArgs   []string       `json:"pre_args"`           // --arg etc. before the query
+	Query     string         `json:"query"`              // query text
+	FromFile  bool           `json:"from_file"`          // pass the query with -f
+	NoQuery   bool           `json:"no_query,omitempty"` // pass no query argument at all
+	Sources   []Source       `json:"sources"`            // files and "-" in command-line order (empty: implicit stdin)
+	Stdin     string         `json:"stdin"`              // the bytes of standard input
+	Plan      simio.ReadPlan `json:"plan"`               // delivery schedule and read fault of stdin
 	PlanClass string         `json:"plan_class,omitempty"`
 	WriteFail int            `json:"write_fail"`          // stdout refuses bytes from this offset on (-1: never)
 	PostArgs  []string       `json:"post_args,omitempty"` // --args / --jsonargs and positionals after the sources
@@ -104,7 +105,9 @@ func (sc *Scenario) argv() []string {
 		}
 		args = append(args, a)
 	}
-	if sc.FromFile {
+	if sc.NoQuery {
+		// nothing
+	} else if sc.FromFile {
 		f := filepath.Join(scratch(), "query.jq")
 		os.WriteFile(f, []byte(sc.Query), 0o644)
 		args = append(args, "-f", f)
